@@ -27,8 +27,6 @@ import (
 	"fmt"
 	"os"
 	"path/filepath"
-	"reflect"
-	"runtime"
 	"sort"
 	"strconv"
 	"strings"
@@ -47,14 +45,14 @@ import (
 
 const nKeys = 4
 
-// repoDir is the root of the influxdb source tree this binary was built from
-// (/repo, or the scratch copy of a mutation test): taken from the file name the
-// compiler recorded for a function of package tsm1.
+// repoDir is the root of the influxdb source tree the check runs against: bin/check
+// passes VERIF_REPO for scratch trees (mutation tests), /repo otherwise.  (The
+// binary is built with -trimpath, so the path cannot be taken from debug info.)
 func repoDir() string {
-	pc := reflect.ValueOf(tsm1.NewEngine).Pointer()
-	file, _ := runtime.FuncForPC(pc).FileLine(pc)
-	// …/tsdb/engine/tsm1/engine.go
-	return filepath.Dir(filepath.Dir(filepath.Dir(filepath.Dir(file))))
+	if d := os.Getenv("VERIF_REPO"); d != "" {
+		return d
+	}
+	return "/repo"
 }
 
 // ---------------------------------------------------------------- store
